@@ -33,8 +33,9 @@ CONSTANTS
   Emit         \* print replay cases
 
 VARIABLES obj, fmt, faults, doc,
-          lay          \* byte layout of a table document (the token structure is the same)
-vars == <<obj, fmt, faults, doc, lay>>
+          lay,         \* byte layout of a table document (the token structure is the same)
+          rcv          \* pre-state of the object the document is read INTO
+vars == <<obj, fmt, faults, doc, lay, rcv>>
 
 (* ------------------------------------------------------------------ atoms *)
 Atoms     == {"zero", "negzero", "subnormal", "maxfinite", "minfinite",
@@ -606,19 +607,84 @@ LayoutsOf(x, f) ==
   THEN (IF Encode(x, f).l = <<>> THEN TableLayouts \ {"NoFinalNewline"} ELSE TableLayouts)   \* a file without lines has no last line
   ELSE {"canonical"}
 
+(* ---------------------------------------------------------------- receivers *)
+(* Every reader (UnmarshalJSON, Import, ImportConfig) writes INTO an existing *)
+(* object.  Contract: after a successful read the receiver equals what the    *)
+(* document carries, whatever the receiver was before - a fresh zero value, a *)
+(* used object of another shape that holds other data (longer / shorter; for  *)
+(* sparse storage: existing entries), a transposed view, a sliced view.  The  *)
+(* contract decoder Decoded does not look at the receiver at all; the driver  *)
+(* builds the receiver described here (all positions filled with non-zero     *)
+(* data, real elements are variables) and reads into it.                      *)
+Rcv(pre, r, c, v) == [pre |-> pre, rows |-> r, cols |-> c, view |-> v]
+FreshRcv == Rcv("fresh", 0, 0, <<>>)
+PlainAtoms == {"zero", "one", "minusTwo", "typeMaxInt", "typeMinInt"}
+AtomsOfObj(x) == CASE x.k = "scalar" -> {x.v}
+                   [] x.k \in {"vector", "matrix"} -> {x.c[q] : q \in 1..Len(x.c)}
+                   [] OTHER -> {}
+MaxZ(a) == IF a > 0 THEN a ELSE 0
+UsedReceivers(x) ==
+  LET d == Denote(x) IN
+  CASE x.k = "scalar" -> {Rcv("used", 0, 0, <<>>)}
+    [] x.k = "dist"   -> {Rcv("used", 0, 0, <<>>)}
+    [] x.k = "vector" ->
+         {Rcv("longer", d.n + 2, 0, <<>>), Rcv("sliced", d.n + 2, 0, <<[op |-> "S", i |-> 1, j |-> d.n + 1]>>)}
+         \cup (IF d.n >= 1 THEN {Rcv("shorter", d.n - 1, 0, <<>>)} ELSE {})
+    [] x.k = "matrix" ->
+         {Rcv("larger", d.rows + 1, d.cols + 2, <<>>),
+          Rcv("transposed", d.cols + 2, d.rows + 1, <<TOp>>),
+          Rcv("transposedSame", d.cols, d.rows, <<TOp>>),
+          Rcv("sliced", d.rows + 2, d.cols + 2, <<SOp(1, d.rows + 1, 1, d.cols + 1)>>),
+          Rcv("slicedT", d.cols + 2, d.rows + 2, <<SOp(1, d.cols + 1, 1, d.rows + 1), TOp>>)}
+         \cup (IF d.rows >= 1 \/ d.cols >= 1 THEN {Rcv("smaller", MaxZ(d.rows - 1), MaxZ(d.cols - 1), <<>>)} ELSE {})
+ReceiversOf(x, f) ==
+  IF x.k \in {"scalar", "dist"} \/ Family = "fault"
+     \/ (x.k \in {"vector", "matrix"} /\ x.view = <<>> /\ AtomsOfObj(x) \subseteq PlainAtoms)
+  THEN {FreshRcv} \cup UsedReceivers(x) ELSE {FreshRcv}
+
+(* Mechanism layer for the one reader that keeps a header next to the storage: *)
+(* the dense matrix (rows, cols, rowMax, colMax, offsets, transposed flag;     *)
+(* index() transcribed from matrix_dense_template.in).  UnmarshalJSON must     *)
+(* reset EVERY header field, otherwise the new storage is seen through the old *)
+(* view of the receiver.                                                       *)
+MHdr(vals, r, c) == [values |-> vals, rows |-> r, cols |-> c, rowMax |-> r, colMax |-> c,
+                     rowOffset |-> 0, colOffset |-> 0, transposed |-> FALSE]
+MechT(h) == [h EXCEPT !.rows = h.cols, !.cols = h.rows, !.transposed = ~h.transposed,
+                      !.rowOffset = h.colOffset, !.rowMax = h.colMax, !.colOffset = h.rowOffset, !.colMax = h.rowMax]
+MechSlice(h, r0, r1, c0, c1) == [h EXCEPT !.rowOffset = @ + r0, !.rows = r1 - r0, !.colOffset = @ + c0, !.cols = c1 - c0]
+MechIndex(h, i, j) == IF h.transposed THEN (h.colOffset + j) * h.rowMax + (h.rowOffset + i)
+                      ELSE (h.rowOffset + i) * h.colMax + (h.colOffset + j)
+MechDenote(h) == [k |-> "matrix", rows |-> h.rows, cols |-> h.cols,
+                  c |-> [q \in 1..(h.rows * h.cols) |-> h.values[MechIndex(h, (q-1) \div h.cols, (q-1) % h.cols) + 1]]]
+RECURSIVE MechView(_, _)
+MechView(h, w) == IF w = <<>> THEN h
+                  ELSE MechView(IF Head(w).op = "T" THEN MechT(h) ELSE MechSlice(h, Head(w).r0, Head(w).r1, Head(w).c0, Head(w).c1), Tail(w))
+MechReceiver(r) == MechView(MHdr([q \in 1..(r.rows * r.cols) |-> El("one", 0, -1)], r.rows, r.cols), r.view)
+MechUnmarshal(h, d) == [h EXCEPT !.values = d.c, !.rows = d.rows, !.rowMax = d.rows, !.rowOffset = 0,
+                                 !.cols = d.cols, !.colMax = d.cols, !.colOffset = 0, !.transposed = FALSE]
+(* the header arithmetic refines the view contract, and the read is independent of the receiver *)
+MechViewRefines == (obj.k = "matrix" /\ rcv.pre # "fresh") =>
+   MechDenote(MechReceiver(rcv)) =
+     LET m == ApplyM([rows |-> rcv.rows, cols |-> rcv.cols, c |-> [q \in 1..(rcv.rows * rcv.cols) |-> El("one", 0, -1)]], rcv.view)
+     IN [k |-> "matrix", rows |-> m.rows, cols |-> m.cols, c |-> m.c]
+ReceiverIndependent == (obj.k = "matrix" /\ obj.st = "dense" /\ fmt = "json" /\ ~IsErr(Decoded)) =>
+   MechDenote(MechUnmarshal(MechReceiver(rcv), Decoded)) = Decoded
+
 (* ------------------------------------------------------------------ machine *)
 Init == /\ obj \in Objects
         /\ fmt \in Formats(obj)
         /\ faults = <<>>
         /\ doc = Encode(obj, fmt)
         /\ lay \in LayoutsOf(obj, fmt)
+        /\ rcv \in (IF lay = "canonical" THEN ReceiversOf(obj, fmt) ELSE {FreshRcv})
 
 Fault == /\ Len(faults) < MaxFaults
          /\ lay = "canonical"
+         /\ rcv.pre = "fresh"
          /\ \E ft \in FaultsOf(doc, obj, fmt) :
               /\ faults' = Append(faults, ft)
               /\ doc' = ApplyFault(doc, ft, obj, fmt)
-         /\ UNCHANGED <<obj, fmt, lay>>
+         /\ UNCHANGED <<obj, fmt, lay, rcv>>
 
 Next == Fault
 Spec == Init /\ [][Next]_vars
@@ -636,7 +702,7 @@ TypesOf(x) ==
   IN {ty \in all : \A a \in AtomsOf(x) : AtomOK(ty, a)}
 
 Case ==
-  [obj |-> obj, fmt |-> fmt, faults |-> faults, types |-> TypesOf(obj), layout |-> lay,
+  [obj |-> obj, fmt |-> fmt, faults |-> faults, types |-> TypesOf(obj), layout |-> lay, rcv |-> rcv,
    expect |-> IF faults # <<>> THEN "error-or-wellformed"
               ELSE IF lay \in {"CRLF", "TrailingBlanks"} THEN "roundtrip-equal-or-error" ELSE "roundtrip-equal",
    exp |-> IF faults # <<>> THEN [k |-> "none"] ELSE Carried(obj, fmt),
